@@ -26,6 +26,9 @@ type srcGen struct {
 	inLoop   int
 	deep     bool // the spine almost always continues: reaches the depth limit
 	tags     map[string]bool
+	// wideRate > 0: 1 list in wideRate (at every kind of list site) has 17..46 items instead of
+	// 0..8.  0 (the default): never, and no random number is drawn for the decision.
+	wideRate int
 }
 
 type genImport struct {
@@ -91,10 +94,22 @@ func (g *srcGen) ref() string {
 	return c01FreeNames[g.r.Intn(len(c01FreeNames)-1)] // not "_"
 }
 
+// widen replaces a drawn list length by 17..46 in 1 of wideRate draws.
+func (g *srcGen) widen(n int) int {
+	if g.wideRate > 0 && g.budget > 0 && g.r.Intn(g.wideRate) == 0 {
+		g.tag("wide-list")
+		return 17 + g.r.Intn(30)
+	}
+	return n
+}
+
 // count draws a list length 0..8.
 func (g *srcGen) count() int {
 	if g.budget <= 0 {
 		return g.r.Intn(2)
+	}
+	if w := g.widen(-1); w > 0 {
+		return w
 	}
 	var n int
 	switch k := g.r.Intn(20); {
@@ -712,6 +727,7 @@ func (g *srcGen) params(d int, declare, variadic bool) {
 				k = 2 + g.r.Intn(3)
 				g.tag("grouped-params")
 			}
+			k = g.widen(k)
 			for j := 0; j < k; j++ {
 				if j > 0 {
 					g.w(", ")
@@ -819,6 +835,7 @@ func (g *srcGen) lhsList(d int, define bool) int {
 	if g.r.Intn(3) == 0 {
 		n = 2 + g.r.Intn(3)
 	}
+	n = g.widen(n)
 	for i := 0; i < n; i++ {
 		if i > 0 {
 			g.w(", ")
@@ -1099,6 +1116,7 @@ func (g *srcGen) switchStmt(d int) {
 			if g.r.Intn(6) == 0 {
 				k = 4 + g.r.Intn(5)
 			}
+			k = g.widen(k)
 			for j := 0; j < k; j++ {
 				if j > 0 {
 					g.w(", ")
@@ -1140,7 +1158,7 @@ func (g *srcGen) typeSwitch(d int) {
 			g.w("default:")
 		} else {
 			g.w("case ")
-			k := 1 + g.r.Intn(3)
+			k := g.widen(1 + g.r.Intn(3))
 			for j := 0; j < k; j++ {
 				if j > 0 {
 					g.w(", ")
@@ -1287,6 +1305,7 @@ func (g *srcGen) valueSpec(d int, isConst bool, first bool) {
 	if g.r.Intn(4) == 0 {
 		n = 2 + g.r.Intn(3)
 	}
+	n = g.widen(n)
 	var names []string
 	for i := 0; i < n; i++ {
 		g.fresh++
@@ -1412,13 +1431,9 @@ func (g *srcGen) funcDecl(d int) {
 	g.restore(mark)
 }
 
-// GenSource writes one file.  depth is the nesting budget (<= 12; negative = -depth with a
-// spine that almost always continues to the limit), size the node budget.
-func GenSource(r *rand.Rand, depth, size int) (src string, tags []string) {
-	g := &srcGen{r: r, budget: size, tags: map[string]bool{}, deep: depth < 0}
-	if depth < 0 {
-		depth = -depth
-	}
+// fileHeader writes the package clause and 0..5 imports (declared in g.imports).
+func (g *srcGen) fileHeader() {
+	r := g.r
 	g.w("package ", pick(r, []string{"p", "main", "foo_test", "x1", "é"}), "\n\n")
 	// imports
 	ni := r.Intn(6)
@@ -1460,20 +1475,11 @@ func GenSource(r *rand.Rand, depth, size int) (src string, tags []string) {
 		}
 		g.w(")\n")
 	}
-	nd := g.count()
-	if nd == 0 && r.Intn(3) > 0 {
-		nd = 1
-	}
-	for i := 0; i < nd; i++ {
-		g.w("\n")
-		g.declared = g.declared[:0]
-		if r.Intn(2) == 0 {
-			g.funcDecl(depth)
-		} else {
-			g.genDecl(depth)
-		}
-		g.w("\n")
-	}
+}
+
+// fileEnd references every import that is not blank and not yet used, and returns the text
+// with the tags of the file.
+func (g *srcGen) fileEnd() (src string, tags []string) {
 	// every import that is not blank must be referenced (jennifer writes exactly the used ones)
 	for _, im := range g.imports {
 		if im.alias != "_" && !im.used {
@@ -1489,6 +1495,36 @@ func GenSource(r *rand.Rand, depth, size int) (src string, tags []string) {
 	}
 	sort.Strings(tags)
 	return g.b.String(), tags
+}
+
+// GenSource writes one file.  depth is the nesting budget (<= 12; negative = -depth with a
+// spine that almost always continues to the limit), size the node budget.
+func GenSource(r *rand.Rand, depth, size int) (src string, tags []string) {
+	return GenSourceWide(r, depth, size, 0)
+}
+
+// GenSourceWide is GenSource with 1 list in wideRate (0 = none) widened to 17..46 items.
+func GenSourceWide(r *rand.Rand, depth, size, wideRate int) (src string, tags []string) {
+	g := &srcGen{r: r, budget: size, tags: map[string]bool{}, deep: depth < 0, wideRate: wideRate}
+	if depth < 0 {
+		depth = -depth
+	}
+	g.fileHeader()
+	nd := g.count()
+	if nd == 0 && r.Intn(3) > 0 {
+		nd = 1
+	}
+	for i := 0; i < nd; i++ {
+		g.w("\n")
+		g.declared = g.declared[:0]
+		if r.Intn(2) == 0 {
+			g.funcDecl(depth)
+		} else {
+			g.genDecl(depth)
+		}
+		g.w("\n")
+	}
+	return g.fileEnd()
 }
 
 func c01Min(a, b int) int {
